@@ -381,6 +381,9 @@ func c20Exec(raw json.RawMessage) Result {
 		if (perr == nil) != (err == nil) || (err == nil && pl != l) {
 			o = bad("C20:parselevel-disagrees", "ParseLevel(%q) = %v,%v but UnmarshalText gives %v,%v", t, pl, perr, l, err)
 		}
+		if pal, palerr := zap.ParseAtomicLevel(string(t)); (palerr == nil) != (err == nil) || (err == nil && pal.Level() != l) {
+			o = bad("C20:parseatomic-disagrees", "zap.ParseAtomicLevel(%q) = %v,%v but UnmarshalText gives %v,%v", t, pal.Level(), palerr, l, err)
+		}
 		fl := zapcore.Level(op.Cur)
 		ferr := fl.Set(string(t))
 		if (ferr == nil) != (err == nil) || fl != l {
